@@ -610,7 +610,10 @@ def run(ctx, n):
 
 
 def search(ctx, n):
-    explore(ctx, len(CORPUS) + 12, per_line=5, two=400, stress_reps=20, first=0)
+    if n < 1000:        # shortened search (VERIF_SEARCH_SCALE)
+        explore(ctx, len(CORPUS) + 2, per_line=2, two=40, stress_reps=4, first=0)
+    else:
+        explore(ctx, len(CORPUS) + 12, per_line=5, two=400, stress_reps=20, first=0)
 
 
 def replay_plan(rp):
